@@ -6,7 +6,10 @@ use grin_chain::types::NoopAdapter;
 use grin_chain::{Chain, Error as ChainError, Options};
 use grin_core::core::hash::{Hash, Hashed};
 use grin_core::core::pmmr;
-use grin_core::core::{Block, FeeFields, KernelFeatures, Output, Transaction, TxKernel};
+use grin_core::core::{Block, FeeFields, KernelFeatures, NRDRelativeHeight, Output, Transaction, TxKernel};
+use grin_core::libtx::aggsig;
+use grin_keychain::BlindingFactor;
+use grin_util::secp::key::SecretKey;
 use grin_core::global::{self, ChainTypes};
 use grin_core::libtx::{self, build, reward, ProofBuilder};
 use grin_core::pow::{self, Difficulty};
@@ -186,15 +189,35 @@ fn build_tx(tree: &BTreeMap<u64, Blk>, pool: &HashMap<u64, u64>, b: &Blk) -> Tra
 		elems.push(build::output(pool[c] * UNIT, kid_pool(*c)));
 	}
 	let fee = FeeFields::new(0, UNIT).unwrap();
-	let features = if b.lock == 0 {
-		KernelFeatures::Plain { fee }
-	} else {
-		KernelFeatures::HeightLocked {
+	let tx = if b.lock >= 1000 {
+		// no-recent-duplicate kernel with a fixed excess per key (the same excess is reused by design)
+		let key = (b.lock - 1000) / 10;
+		let rel = (b.lock - 1000) % 10;
+		let mut kernel = TxKernel::with_features(KernelFeatures::NoRecentDuplicate {
 			fee,
-			lock_height: b.lock,
-		}
+			relative_height: NRDRelativeHeight::new(rel).expect("nrd rel"),
+		});
+		let msg = kernel.msg_to_sign().unwrap();
+		let secp = static_secp_instance();
+		let secp = secp.lock();
+		let skey = SecretKey::from_slice(&secp, &[40 + key as u8; 32]).unwrap();
+		let excess = BlindingFactor::from_secret_key(skey.clone());
+		kernel.excess = secp.commit(0, skey).unwrap();
+		let pubkey = kernel.excess.to_pubkey(&secp).unwrap();
+		kernel.excess_sig = aggsig::sign_with_blinding(&secp, &msg, &excess, Some(&pubkey)).unwrap();
+		drop(secp);
+		build::transaction_with_kernel(&elems, kernel, excess, &kc, &pb).expect("build nrd tx")
+	} else {
+		let features = if b.lock == 0 {
+			KernelFeatures::Plain { fee }
+		} else {
+			KernelFeatures::HeightLocked {
+				fee,
+				lock_height: b.lock,
+			}
+		};
+		build::transaction(features, &elems, &kc, &pb).expect("build tx")
 	};
-	let tx = build::transaction(features, &elems, &kc, &pb).expect("build tx");
 	cache.lock().unwrap().insert(key, tx.clone());
 	tx
 }
@@ -546,6 +569,7 @@ fn replay(args: &Args) -> i32 {
 		let work = work.clone();
 		hs.push(std::thread::spawn(move || {
 			global::set_local_chain_type(ChainTypes::AutomatedTesting);
+			global::set_local_nrd_enabled(true);
 			loop {
 				let i = {
 					let mut n = next.lock().unwrap();
@@ -582,6 +606,7 @@ fn replay(args: &Args) -> i32 {
 fn main() {
 	quiet_panics();
 	global::set_local_chain_type(ChainTypes::AutomatedTesting);
+	global::set_local_nrd_enabled(true);
 	let _ = consensus::REWARD;
 	let _ = libtx::ProofBuilder::new(&keychain());
 	let a: Vec<String> = std::env::args().skip(1).collect();
